@@ -72,7 +72,7 @@ def gen(seed):
             plan.append({'site': 'layer.tearDown', 'ident': rng.choice(cands), 'a': 'raise',
                          'exc': 'NotImplementedError'})
     return {'property': ID, 'seed': seed, 'world': world, 'plan': plan, 'opt': opt,
-            'sched': {'prng': seed}, 'knobs': {'pipe_capacity': rng.choice([64, 4096])},
+            'sched': {'prng': seed}, 'knobs': {**({'defaults_split': rng.randint(0, 99)} if rng.random() < 0.3 else {}), 'pipe_capacity': rng.choice([64, 4096])},
             'j': rng.randint(2, 4)}
 
 
